@@ -240,7 +240,10 @@ type c05Pod struct {
 	node  string
 	obj   *corev1.Pod
 	cs    fwktype.CycleState
+	bump  int64 // cores added to the request by an in-place resize of the bound pod (0 or 1)
 }
+
+func (p *c05Pod) cpu() int64 { return p.def.cpu + p.bump }
 
 type c05Op struct {
 	name    string
@@ -349,7 +352,7 @@ func (s *c05Sys) podObj(p *c05Pod, node, rsvName string, phase corev1.PodPhase) 
 	o := &corev1.Pod{
 		ObjectMeta: metav1.ObjectMeta{Name: d.name, Namespace: "default", UID: d.uid, Labels: map[string]string{}, Annotations: map[string]string{}},
 		Spec: corev1.PodSpec{NodeName: node, Containers: []corev1.Container{{Name: "main",
-			Resources: corev1.ResourceRequirements{Requests: c05RL(d.cpu, d.mem)}}}},
+			Resources: corev1.ResourceRequirements{Requests: c05RL(p.cpu(), d.mem)}}}},
 		Status: corev1.PodStatus{Phase: phase},
 	}
 	if d.owner {
@@ -403,7 +406,7 @@ func (s *c05Sys) refAllocated(r *c05Rsv) map[corev1.ResourceName]int64 {
 	sum := map[corev1.ResourceName]int64{}
 	for _, p := range s.assigned(r) {
 		if names[corev1.ResourceCPU] {
-			sum[corev1.ResourceCPU] += p.def.cpu * 1000
+			sum[corev1.ResourceCPU] += p.cpu() * 1000
 		}
 		if names[corev1.ResourceMemory] {
 			sum[corev1.ResourceMemory] += p.def.mem << 30
@@ -426,7 +429,7 @@ func (s *c05Sys) refFits(r *c05Rsv, p *c05Pod) bool {
 		return true
 	}
 	names, sum := r.refNames(), s.refAllocated(r)
-	if names[corev1.ResourceCPU] && p.def.cpu > 0 && sum[corev1.ResourceCPU]+p.def.cpu*1000 > c05RsvUnits*1000 {
+	if names[corev1.ResourceCPU] && p.cpu() > 0 && sum[corev1.ResourceCPU]+p.cpu()*1000 > c05RsvUnits*1000 {
 		return false
 	}
 	if names[corev1.ResourceMemory] && p.def.mem > 0 && sum[corev1.ResourceMemory]+p.def.mem<<30 > c05RsvUnits<<30 {
@@ -687,6 +690,15 @@ func c05BuildOps() []c05Op {
 				s.ph.OnUpdate(old, p.obj)
 				// the real code re-adds the pod (remove + add), which re-masks its request to the current dimensions;
 				// the reference does not depend on it
+			}})
+		add(c05Op{name: "inf.resized(" + pn + ")", kind: "inf.resized", // in-place resize: the bound pod now requests one core more
+			enabled: func(s *c05Sys) bool { p := pod(s); return p.phase == "bound" && p.bump == 0 },
+			apply: func(s *c05Sys) {
+				p := pod(s)
+				old := p.obj
+				p.bump = 1
+				p.obj = s.podObj(p, p.node, p.rsv, corev1.PodRunning)
+				s.ph.OnUpdate(old, p.obj)
 			}})
 		add(c05Op{name: "inf.terminated(" + pn + ")", kind: "inf.terminated",
 			enabled: func(s *c05Sys) bool { return pod(s).phase == "bound" },
@@ -1341,7 +1353,7 @@ func (s *c05Sys) refString() string {
 		fmt.Fprintf(&sb, "] g=%v x=%v; ", r.dimsGrewWhileAssigned, r.refreshedWhileExhausted)
 	}
 	for _, p := range s.pods {
-		fmt.Fprintf(&sb, "%s:%s->%s@%s; ", p.def.name, p.phase, p.rsv, p.node)
+		fmt.Fprintf(&sb, "%s:%s->%s@%s+%d; ", p.def.name, p.phase, p.rsv, p.node, p.bump)
 	}
 	return sb.String()
 }
@@ -1354,7 +1366,7 @@ func TestVerifC05Hist(t *testing.T) {
 	env := mc.LoadEnv()
 	ops := c05BuildOps()
 	res := mc.NewResult("C05", "hist", "bfs")
-	res.Rule = fmt.Sprintf("BFS over all sequences of the %d-event alphabet on the real reservationCache + event handlers + Plugin: reservations r1 (Restricted, cpu+memory, allocate-once off, options none<->[cpu]), r2 (default policy, allocate-once), r3 (Restricted, options [cpu]<->[cpu,memory]) on nodes n1/n2: informer add (pending / available), update (->Available, ->Succeeded, ->Failed, unschedulable toggle, restricted-options change), delete (plain / tombstone), lagging DeleteReservation of the global handler, scheduler Reserve/Unreserve of the reserve pod; pods q1 (1,1), q2 (2,0, reservation affinity), q3 (3,3, no owner label): scheduler Reserve/Unreserve on a reservation, informer bound / bound-by-another-scheduler / annotation moved / unchanged update / terminated / deleted; a state = canonical cache contents + what the events established", len(ops))
+	res.Rule = fmt.Sprintf("BFS over all sequences of the %d-event alphabet on the real reservationCache + event handlers + Plugin: reservations r1 (Restricted, cpu+memory, allocate-once off, options none<->[cpu]), r2 (default policy, allocate-once), r3 (Restricted, options [cpu]<->[cpu,memory]) on nodes n1/n2: informer add (pending / available), update (->Available, ->Succeeded, ->Failed, unschedulable toggle, restricted-options change), delete (plain / tombstone), lagging DeleteReservation of the global handler, scheduler Reserve/Unreserve of the reserve pod; pods q1 (1,1), q2 (2,0, reservation affinity), q3 (3,3, no owner label): scheduler Reserve/Unreserve on a reservation, informer bound / bound-by-another-scheduler / annotation moved / unchanged update / in-place resize (+1 core) / terminated / deleted; a state = canonical cache contents + what the events established", len(ops))
 	res.Assumptions = []string{
 		"reservation informer events in order per object; terminal phases and deletes final per UID; the node of a scheduled reservation never changes",
 		"the global reservation handler is represented by DeleteReservation(old object) after available->terminated / delete of a placed reservation; it may lag behind the plugin's handler but not overtake it",
